@@ -171,6 +171,25 @@ def py_step(line):
     A, p = C.parse_mat(ts, p)
     n = len(A)
     half = Fraction(1, 2)
+    if op == "grad":     # mirror of MLL.gradParts? / gradAssemble
+        r, p = C.parse_mat(ts, p)
+        cnt = int(ts[p])
+        p += 1
+        X = frac_inv(A)
+        rv = [row[0] for row in r]
+        out = []
+        for _ in range(cnt):
+            D, p = C.parse_mat(ts, p)
+            dm, p = C.parse_mat(ts, p)
+            if X is None:
+                continue
+            w_ = [sum(X[i][j] * rv[j] for j in range(n)) for i in range(n)]
+            wl = [sum(rv[i] * X[i][j] for i in range(n)) for j in range(n)]
+            q = sum(wl[i] * D[i][j] * w_[j] for i in range(n) for j in range(n))
+            tr = sum(X[i][j] * D[j][i] for i in range(n) for j in range(n))
+            mt = sum(dm[i][0] * w_[i] for i in range(n))
+            out.append(f"{rs(q)} {rs(tr)} {rs(mt)} {rs(half * q - half * tr + mt)}")
+        return "singular" if X is None else " ".join(out)
     if op == "mll":
         r, p = C.parse_mat(ts, p)
         pri, p = _take_terms(ts, p)
@@ -346,19 +365,47 @@ def finding_sites(w):
                    if kind == "smoothedbox" and getter().dim() == 1})
 
 
+def _code_form_term(w, kind, a, b, x):
+    """What `_add_other_terms` adds to each batch element for a prior on a NON-batched parameter of own shape `x.shape`
+    under a data batch `w.batch` (res_ndim = len(batch)): `lp.view(*lp.shape[:res_ndim], -1).sum(-1)` broadcast-added in
+    place onto `res`.  Returns the per-batch tensor, or None when that in-place add cannot broadcast (RuntimeError)."""
+    import torch
+    from props import _c02models as Mz
+    lp = Mz.prior_logpdf(torch, kind, a, b, x)
+    if kind == "smoothedbox" and lp.dim() >= 1:
+        lp = lp.sum(-1)            # SmoothedBoxPrior.log_prob reduces its last dimension itself
+    k = len(w.batch)
+    try:
+        cf = lp.reshape(*lp.shape[:k], -1).sum(-1)
+        return torch.zeros(w.batch, dtype=torch.float64).add_(cf) if not cf.requires_grad else torch.zeros(w.batch, dtype=torch.float64) + cf.expand(w.batch)
+    except RuntimeError:
+        return None
+
+
 def nb_sites(w):
-    """Sites of the second finding: a *non-batched* multi-element parameter without leading singleton dimensions
-    (MultitaskGaussianLikelihood.task_noises, shape [t]) under a data batch: `_add_other_terms` takes the leading
-    dimension of the prior term for a batch dimension."""
-    if w.cfg["batch"] != "data":
+    """Sites of the second finding: a *non-batched* multi-element parameter (own shape without leading singleton batch
+    dimensions: MultitaskGaussianLikelihood.task_noises [t]; an ARD lengthscale [1, d] under >= 2 data-batch dimensions;
+    …) under a data batch: `_add_other_terms` takes the leading dimensions of the prior term for batch dimensions.  A site
+    is listed when the code-form reduction differs from the per-batch definition (or cannot broadcast)."""
+    import torch
+    from props import _c02models as Mz
+    if w.cfg["batch"] != "data" or not len(w.batch):
         return []
-    return sorted({site for (site, _k, _a, _b, getter, _o) in w.priors if site == "task_noises" and getter().dim() == 1})
+    out = set()
+    with torch.no_grad():
+        for (site, kind, a, b, getter, _o) in w.priors:
+            x = getter().detach()
+            cf = _code_form_term(w, kind, a, b, x)
+            spec = Mz.prior_logpdf(torch, kind, a, b, x).sum()
+            if cf is None or float((cf - spec).abs().max()) > 1e-12 * (1 + abs(float(spec))):
+                out.add(site)
+    return sorted(out)
 
 
 def finding_shift(w, graph=False):
     """What the implementation adds instead of the per-batch definition, per batch element, divided by N:
     (A) SmoothedBoxPrior's sum(-1) swallows the batch dimension: (sum over all batch elements) - (own element);
-    (B) a prior term of shape [t] under a data batch of size b = t: (entry i) - (sum over the t entries)."""
+    (B) a prior term on a non-batched parameter under a data batch: (code-form reduction) - (sum over all entries)."""
     import torch
     from props import _c02models as Mz
     tot = torch.zeros(w.batch, dtype=torch.float64)
@@ -367,9 +414,10 @@ def finding_shift(w, graph=False):
         if kind == "smoothedbox" and w.cfg["batch"] == "model" and x.dim() == 1:
             lp = Mz.prior_logpdf(torch, kind, a, b, x)
             tot = tot + (lp.sum() - lp)
-        if site == "task_noises" and w.cfg["batch"] == "data" and x.dim() == 1 and tuple(x.shape) == tuple(w.batch):
-            lp = Mz.prior_logpdf(torch, kind, a, b, x)
-            tot = tot + (lp - lp.sum())
+        if w.cfg["batch"] == "data" and len(w.batch):
+            cf = _code_form_term(w, kind, a, b, x)
+            if cf is not None:
+                tot = tot + (cf - Mz.prior_logpdf(torch, kind, a, b, x).sum())
     return tot / w.N
 
 
@@ -445,7 +493,7 @@ def apply_history(w, mll, cfg):
     import gpytorch
     ops = cfg.get("history") or []
     if not ops:
-        return
+        return mll
     gen = torch.Generator().manual_seed(cfg["seed"] ^ 0x77)
     model, lik = w.model, w.lik
     try:
@@ -496,8 +544,32 @@ def apply_history(w, mll, cfg):
             new_y = -1.5 + 3.0 * torch.rand(w.train_y.shape, generator=gen, dtype=torch.float64)
             model.set_train_data(targets=new_y, strict=False)
             w.train_y = new_y
+        elif op == "deepcopy":
+            # copy history: the OBJECTIVE (likelihood + model) is deep-copied, the copy's hyperparameters are moved, and
+            # from here on the copy is the object under test; the original must be left alone (checked at the end)
+            import copy
+            orig_params = [(p_, p_.detach().clone()) for p_ in model.parameters()]
+            mll = copy.deepcopy(mll)
+            model, lik = mll.model, mll.likelihood
+            mods = dict(model.named_modules())
+            new_priors, new_regs = [], []
+            for (site, kind, a, b, _g, own), (_mid, pname) in zip(w.priors, w.prior_regs):
+                name, attr = own.rsplit(".", 1)
+                mod = mods[name]
+                new_priors.append((site, kind, a, b, (lambda m=mod, at=attr: getattr(m, at)), own))
+                new_regs.append((id(mod), pname))
+            w.priors, w.prior_regs = new_priors, new_regs
+            w.prior_objs = [mods[own.rsplit(".", 1)[0]]._priors[pname][0] for (*_x, own), (_i, pname) in zip(new_priors, new_regs)]
+            w.model, w.lik = model, lik
+            w.train_y = model.train_targets
+            with torch.no_grad():
+                for _n, p in model.named_parameters():
+                    if p.numel():
+                        p.copy_(perturbed(p))
+            w.copy_orig = orig_params
         else:
             raise ValueError(op)
+    return mll
 
 
 def check_registrations(case, w):
@@ -585,7 +657,7 @@ def run_mll(cfg, do_grad=True):
     with warnings.catch_warnings():
         warnings.simplefilter("ignore")
         mll = gpytorch.mlls.ExactMarginalLogLikelihood(w.lik, w.model)
-        apply_history(w, mll, cfg)
+        mll = apply_history(w, mll, cfg)
         w.kw = {}
         if cfg.get("call_noise"):      # call-time noise through the objective's **kwargs
             g2 = torch.Generator().manual_seed(cfg["seed"] ^ 0x99)
@@ -613,10 +685,11 @@ def run_mll(cfg, do_grad=True):
                         with lazy_ctx():
                             impl[path] = mll(w.model(*w.model.train_inputs), w.train_y, **w.kw)
                 except Exception as e:
-                    if bsites and isinstance(e, RuntimeError) and cfg["b"] != cfg["t"] and "must match the size" in str(e):
-                        case.fail(FINDING2_PREFIX + "task_noises:raises",
-                                  f"data batch [{cfg['b']}], non-batched task_noises prior term of shape [{cfg['t']}]: "
-                                  f"_add_other_terms takes its leading dimension for a batch dimension and raises "
+                    if bsites and isinstance(e, RuntimeError) and ("must match the size" in str(e) or "doesn't match the broadcast shape" in str(e)) \
+                            and any(_code_form_term(w, kind_, a_, b_, g_().detach()) is None for (s_, kind_, a_, b_, g_, _o) in w.priors):
+                        case.fail(FINDING2_PREFIX + bsites[0] + ":raises",
+                                  f"data batch {list(w.batch)}, prior term on the non-batched parameter `{bsites[0]}`: "
+                                  f"_add_other_terms takes its leading dimension(s) for batch dimension(s) and raises "
                                   f"{type(e).__name__}: {str(e)[:120]}")
                     else:
                         case.fail(f"mll-raises:{tag}:{path}", f"mll raised {type(e).__name__}: {str(e)[:200]}")
@@ -629,10 +702,23 @@ def run_mll(cfg, do_grad=True):
         check_added_registrations(case, w)
         if not torch.equal(w.train_y, y_before) or any(not torch.equal(p.detach(), q) for p, q in zip(w.model.parameters(), p_before)):
             case.fail(f"mll-mutates-input:{tag}", "evaluating the objective changed the targets or a parameter in place")
-        # ---- gradients (correspondence only)
+        # ---- history independence of the model's own prior: a fresh twin with the same state evaluates to the same K, m
+        if cfg.get("history") and not case.fails:
+            twin_check(case, w, A, m, tag)
+        # ---- gradients: autograd(impl) vs autograd(dense re-expression) vs finite differences, and (wave 3) vs the EXACT
+        # value of the proved formula (Props/C02 `logNormal_gradient`, driver op `grad`)
         grads = None
         if do_grad and len(impl) == 2:
             grads = gradient_check(case, w, mll, tag, fsites or bsites)
+            if not case.fails:
+                try:
+                    exact_gradient_lines(case, w, mll, tag, cond, fsites or bsites)
+                except Exception as e:
+                    case.notes["exact_grad_skipped"] = f"{type(e).__name__}: {str(e)[:120]}"
+        if getattr(w, "copy_orig", None):
+            if any(not torch.equal(p_.detach(), q_) for p_, q_ in w.copy_orig):
+                case.fail(f"mll-history:copy-moves-original:{tag}", "changing / evaluating the deep copy of the objective "
+                          "changed a parameter of the original model")
 
     def finish(replies):
         exact = exact_mll_values(replies, w.N)
@@ -672,9 +758,9 @@ def run_mll(cfg, do_grad=True):
                 if (fsites or bsites) and _close(got, ex + float(shift[bi]), 1e-9, cond=cond):
                     for site in bsites:
                         case.fail(FINDING2_PREFIX + site,
-                                  f"data batch {list(Bx)}, non-batched prior term on `{site}` of shape [{cfg.get('t')}]: "
-                                  f"mll{list(bi)} = {got!r}; per-batch definition (sum over all {cfg.get('t')} entries) gives "
-                                  f"{ex!r}; the implementation adds only entry {list(bi)} of the term to this batch element")
+                                  f"data batch {list(Bx)}, prior term on the non-batched parameter `{site}`: "
+                                  f"mll{list(bi)} = {got!r}; per-batch definition (sum over all entries of the term) gives "
+                                  f"{ex!r}; the implementation takes the term's leading dimension(s) for batch dimension(s)")
                     for site in fsites:
                         case.fail(FINDING_PREFIX + site,
                                   f"batched model (batch {list(Bx)}), SmoothedBoxPrior on `{site}` of shape {list(Bx)}: "
@@ -718,7 +804,7 @@ def gradient_check(case, w, mll, tag, fsites):
         if diff > 1e-6 * scale + 1e-9:
             if g_alt is not None and g_alt[k] is not None and \
                     float((gi - g_alt[k]).abs().max()) <= 1e-6 * float(g_alt[k].abs().max()) + 1e-9:
-                key = (FINDING2_PREFIX if "task_noises" in name else FINDING_PREFIX) + "grad:" + name
+                key = (FINDING2_PREFIX if w.cfg["batch"] == "data" else FINDING_PREFIX) + "grad:" + name
             case.fail(key, f"autograd of the implementation w.r.t. {name} differs from autograd of the dense definition: "
                            f"max |diff| {diff:.3e} (|grad| {scale:.3e}); impl {gi.reshape(-1)[:4].tolist()} dense "
                            f"{gd.reshape(-1)[:4].tolist()}")
@@ -753,6 +839,149 @@ def gradient_check(case, w, mll, tag, fsites):
     return True
 
 
+def twin_check(case, w, A, m, tag):
+    """K and m are 'whatever the model's kernel and mean evaluate to': a freshly built twin carrying the same state
+    (state_dict, targets) must evaluate to the same prior — otherwise the training-mode evaluation depends on the
+    history of the object (stale caches), and the objective is not the dense definition of the CURRENT hyperparameters."""
+    import torch
+    from props import _c02models as Mz
+    try:
+        w2 = Mz.build(w.cfg)
+        w2.model.load_state_dict(w.model.state_dict())
+        if w2.train_y.shape == w.train_y.shape and not torch.equal(w2.train_y, w.train_y):
+            w2.model.set_train_data(targets=w.train_y.detach().clone(), strict=False)
+            w2.train_y = w.train_y
+        if getattr(w, "call_noise", None) is not None:
+            w2.call_noise = w.call_noise
+        _o2, A2, m2, _y2 = dense_parts(w2)
+    except Exception as e:
+        case.notes["twin_skipped"] = f"{type(e).__name__}: {str(e)[:100]}"
+        return
+    case.notes["twin_checked"] = 1
+    sa = float(A.abs().max())
+    da = float((A2 - A).abs().max()) if A2.shape == A.shape else float("inf")
+    dm = float((m2 - m).abs().max()) if m2.shape == m.shape else float("inf")
+    if da > 1e-9 * max(1.0, sa) or dm > 1e-9 * max(1.0, float(m.abs().max())):
+        case.fail(f"mll-history:prior-depends-on-history:{tag}",
+                  f"after the history {w.cfg.get('history')} the model's own training prior differs from that of a fresh "
+                  f"model carrying the same state_dict: max |ΔK| {da:.3e} (|K| {sa:.3e}), max |Δm| {dm:.3e} — the objective "
+                  f"is evaluated with stale kernel / mean values")
+
+
+def exact_gradient_lines(case, w, mll, tag, cond, known_sites):
+    """d(objective)/dθ_k for scalar components θ_k of the raw parameters: the implementation's autograd value vs the exact
+    value of the proved formula Σ_b [½ rᵀA⁻¹D_kA⁻¹r − ½ tr(A⁻¹D_k) + dμ_kᵀA⁻¹r]/N + d(prior + added terms)/dθ_k, where
+    A, r are exact rationals and D_k = ∂A/∂θ_k, dμ_k = ∂m/∂θ_k are the Jacobians of the model's own prior (torch
+    autograd of the kernel / mean evaluation — C05 / C19's subject), shipped as exact rationals."""
+    import torch
+    from props import _c02models as Mz
+    cfg = w.cfg
+    with torch.enable_grad():
+        params = [(nm, p) for nm, p in w.model.named_parameters() if p.requires_grad and p.numel()]
+        if not params:
+            return
+        ps = [p for _, p in params]
+        sizes = [p.numel() for p in ps]
+        P = sum(sizes)
+        out, A, m, y = dense_parts(w)
+        Bx = tuple(torch.broadcast_shapes(A.shape[:-2], m.shape[:-1], tuple(w.batch)))
+        n = A.shape[-1]
+        idxs = all_idx(Bx)
+        if len(idxs) * n * n > 320:
+            case.notes["exact_grad_skipped"] = "size"
+            return
+        Ae = A.expand(*Bx, n, n)
+        me = m.expand(*Bx, n)
+        ye = y.expand(*Bx, n)
+
+        def jac(vec):
+            """rows of d vec / d(all raw parameters), vec 1-d with graph"""
+            rows = []
+            for e in range(vec.numel()):
+                if not vec[e].requires_grad:
+                    rows.append(torch.zeros(P, dtype=torch.float64))
+                    continue
+                g = torch.autograd.grad(vec[e], ps, retain_graph=True, allow_unused=True)
+                rows.append(torch.cat([(torch.zeros(sz, dtype=torch.float64) if gi is None else gi.reshape(-1).double())
+                                       for gi, sz in zip(g, sizes)]))
+            return torch.stack(rows)
+        JA = [jac(Ae[bi].reshape(-1)).reshape(n, n, P) for bi in idxs]
+        Jm = [jac(me[bi].reshape(-1)).reshape(n, P) for bi in idxs]
+        v_impl = mll(w.model(*w.model.train_inputs), w.train_y, **getattr(w, "kw", {})).sum()
+        g_impl = torch.autograd.grad(v_impl, ps, allow_unused=True)
+        G = torch.cat([(torch.zeros(sz, dtype=torch.float64) if gi is None else gi.reshape(-1).double())
+                       for gi, sz in zip(g_impl, sizes)])
+        Bt = tuple(Bx)
+        added = [t.loss() for t in Mz.registered_added_loss_terms(w.model)]
+        oth = (reduce_terms(prior_terms(w), Bt) + reduce_terms(added, Bt)).sum() / w.N
+
+        def flatgrad(v):
+            if not getattr(v, "requires_grad", False):
+                return torch.zeros(P, dtype=torch.float64)
+            g = torch.autograd.grad(v, ps, allow_unused=True, retain_graph=True)
+            return torch.cat([(torch.zeros(sz, dtype=torch.float64) if gi is None else gi.reshape(-1).double())
+                              for gi, sz in zip(g, sizes)])
+        Goth = flatgrad(oth)
+        Galt = flatgrad(finding_shift(w, graph=True).sum()) if known_sites else None
+    # components: the first entry of every parameter tensor, then random ones, at most 8
+    rnd = __import__("random").Random(cfg["seed"] ^ 0x3a7)
+    offs, o = [], 0
+    for sz in sizes:
+        offs.append(o)
+        o += sz
+    comps = list(offs)
+    extra = [k for k in range(P) if k not in comps]
+    rnd.shuffle(extra)
+    comps = (comps + extra)[:8]
+    names = []
+    for k in comps:
+        t = max(i for i, o_ in enumerate(offs) if o_ <= k)
+        names.append(f"{params[t][0]}[{k - offs[t]}]")
+    lines = []
+    for bi, JA_b, Jm_b in zip(idxs, JA, Jm):
+        body = f"grad 0 {C.mat_tokens(Ae[bi].detach())} {C.vec_tokens((ye[bi] - me[bi]).detach())} {len(comps)}"
+        for k in comps:
+            body += f" {C.mat_tokens(JA_b[:, :, k])} {C.vec_tokens(Jm_b[:, k])}"
+        lines.append(body)
+    case.lines2 = lines
+    N = w.N
+
+    def finish2(rep2):
+        if any(r in ("singular", "bad-request") for r in rep2):
+            case.notes["exact_grad_skipped"] = "singular-in-Q"
+            return
+        tot = [Fraction(0)] * len(comps)
+        mag = [0.0] * len(comps)
+        for r in rep2:
+            toks = r.split()
+            for j in range(len(comps)):
+                q, tr, mt, g = (Fraction(x) for x in toks[4 * j:4 * j + 4])
+                tot[j] += g
+                mag[j] += abs(float(q)) / 2 + abs(float(tr)) / 2 + abs(float(mt))
+        worst = 0.0
+        for j, k in enumerate(comps):
+            exact = float(tot[j]) / N + float(Goth[k])
+            got = float(G[k])
+            scale = mag[j] / N + abs(float(Goth[k]))
+            tol = (1e-9 + 64 * cond * 2.0 ** -52) * scale + 1e-12
+            worst = max(worst, abs(got - exact) / max(tol, 1e-300))
+            if abs(got - exact) <= tol:
+                continue
+            if Galt is not None and abs(got - exact - float(Galt[k])) <= tol + 1e-9 * abs(float(Galt[k])):
+                site = known_sites[0] if known_sites else ""
+                case.fail((FINDING2_PREFIX if w.cfg["batch"] == "data" else FINDING_PREFIX) + "grad-exact:" + names[j].split("[")[0],
+                          f"d mll / d {names[j]} = {got!r}; exact value of the proved gradient formula {exact!r}; the difference is "
+                          f"the gradient of the known prior batch-sum shift on `{site}`")
+                continue
+            case.fail(f"mll-grad-exact:{names[j].split('[')[0]}",
+                      f"d(Σ_b mll_b)/d {names[j]}: autograd of the implementation {got!r}; exact value of "
+                      f"Σ_b[½rᵀA⁻¹DA⁻¹r − ½tr(A⁻¹D) + dμᵀA⁻¹r]/N + d(priors+added)/dθ = {exact!r} "
+                      f"(|diff| {abs(got - exact):.3e}, tolerance {tol:.3e}; {tag}, batch {list(Bx)}, n={n})")
+        case.notes["exact_grad_components"] = len(comps)
+        case.notes["exact_grad_worst_ratio"] = worst
+    case.finish2 = finish2
+
+
 # ------------------------------------------------------------------ LOO
 
 def run_loo(cfg):
@@ -768,7 +997,7 @@ def run_loo(cfg):
         loo = gpytorch.mlls.LeaveOneOutPseudoLikelihood(w.lik, w.model)
         if cfg.get("history"):
             with torch.enable_grad():
-                apply_history(w, loo, cfg)
+                loo = apply_history(w, loo, cfg)
         out, A, m, y = dense_parts(w)
         pri = prior_terms(w)
         add = [t.loss() for t in Mz.registered_added_loss_terms(w.model)]
@@ -927,7 +1156,7 @@ def gen_cfgs(ctx):
     cfgs = []
     n_mll = 64 if quick else 1400
     fams = ["single"] * 5 + ["multitask"] * 2 + ["sgpr"]
-    HOPS = ["raw", "load_state_dict", "partial_state_dict", "setter", "targets"]
+    HOPS = ["raw", "load_state_dict", "partial_state_dict", "setter", "targets", "deepcopy"]
 
     def decorate(c, p_hist=0.35):
         """op-then-use history, settings cell and call-time kwargs on top of a model configuration"""
@@ -1097,6 +1326,16 @@ def correspondence(ctx, use_driver=True):
                 ctx.count("prior_" + k, c.notes[k])
         if c.notes.get("added_loss_registrations"):
             ctx.count("added_loss_registrations", c.notes["added_loss_registrations"])
+        if c.notes.get("exact_grad_components"):
+            ctx.count("exact_gradient_components_checked", c.notes["exact_grad_components"])
+            ctx.notes["exact_gradient_worst_error_over_tolerance"] = max(ctx.notes.get("exact_gradient_worst_error_over_tolerance", 0.0),
+                                                                         c.notes["exact_grad_worst_ratio"])
+        if c.notes.get("exact_grad_skipped"):
+            ctx.count("exact_gradient_skipped:" + str(c.notes["exact_grad_skipped"])[:40])
+        if c.notes.get("twin_checked"):
+            ctx.count("history_twin_prior_checked")
+        if c.notes.get("twin_skipped"):
+            ctx.count("history_twin_skipped:" + str(c.notes["twin_skipped"])[:40])
         if c.notes.get("fd_unstable"):
             ctx.count("finite_difference_unstable_skipped", c.notes["fd_unstable"])
     ctx.notes["cells"] = cells
